@@ -29,6 +29,9 @@ def leaf(rng, name=None):
 
 def py_leaf(l):
     import atsim.potentials.potentialforms as pfm
+    if 'sum' in l:
+        import atsim.potentials as ap
+        return ap.plus(py_leaf(l['sum'][0]), py_leaf(l['sum'][1]))
     return getattr(pfm, l['form'])(*l['params'])
 
 def point_data(l, r):
@@ -93,6 +96,7 @@ class SolveRecorder(object):
         self.np.linalg.solve = self.orig
 
 def defn(l):
+    if 'sum' in l: return 'sum(%s, %s)' % (defn(l['sum'][0]), defn(l['sum'][1]))
     return 'as.%s %s' % (l['form'], ' '.join(repr(p) for p in l['params']))
 
 def build(case, route=None):
@@ -247,7 +251,7 @@ def correspond(ctx):
                     '(|v|,|v\'|,|v\'\'| < 1e4 at the joins; exp: shift <= 50, log-derivatives <= 20 / 200); built through SplinePotential / Buck4_SplinePotential, the spline() modifier and as.buck4; per case: the six point values, '
                     'every entry of the matrix and right-hand side numpy.linalg.solve received vs the translated system, the residual of the returned coefficients, and value/deriv/deriv2 at 7..10 separations '
                     '(both joins, both sides, inside, r_min and its two sides), all interval-certified; every case is non-trivial',
-            'samples': cases[:3], 'distribution': dist, 'disagreements': dis[:20], 'oracle_cases': cases + [gen_case(rng) for _ in range(150 if ctx['thorough'] else 40)]}
+            'samples': cases[:3], 'distribution': dist, 'disagreements': dis[:20], 'oracle_cases': cases + oracle_corpus() + [gen_case(rng) for _ in range(150 if ctx['thorough'] else 40)]}
 
 def corpus():
     c1 = {'kind': 'exp', 'start': {'form': 'zbl', 'params': [14.0, 8.0]}, 'end': {'form': 'buck', 'params': [180003.0, 0.3, 32.0]}, 'detach': 0.8, 'attach': 1.4, 'route': 'modifier'}
@@ -259,6 +263,18 @@ def corpus():
     out = []
     rng = random.Random(10)
     for c in (c1, c2, c3, c4, c5):
+        c['rs'] = sample_rs(rng, c); out.append(c)
+    return out
+
+def oracle_corpus():
+    """oracle-only cases (no Coq goals): a modifier as the end potential of a spline, its range written exclusively ('>attach sum(...)')"""
+    c1 = {'kind': 'exp', 'start': {'form': 'zbl', 'params': [14.0, 8.0]}, 'end': {'sum': [{'form': 'buck', 'params': [18003.7572, 0.2052048149, 133.5381]}, {'form': 'coul', 'params': [2.4, -1.2]}]},
+          'detach': 0.8, 'attach': 1.4, 'route': 'modifier'}
+    c2 = {'kind': 'buck4', 'start': {'sum': [{'form': 'bornmayer', 'params': [1000.0, 0.3]}, {'form': 'constant', 'params': [0.5]}]}, 'end': {'sum': [{'form': 'buck', 'params': [0.0, 1.0, 30.0]}, {'form': 'constant', 'params': [-0.25]}]},
+          'detach': 1.2, 'r_min': 2.0, 'attach': 2.6, 'route': 'modifier'}
+    out = []
+    rng = random.Random(11)
+    for c in (c1, c2):
         c['rs'] = sample_rs(rng, c); out.append(c)
     return out
 
@@ -346,6 +362,7 @@ def inner_custom(f):
 
 def search_cases(rng, n):
     for c in corpus(): yield c
+    for c in oracle_corpus(): yield c
     for _ in range(n): yield gen_case(rng)
 def finding_for(case, fails): return None
 def replay_finding(f): return False
